@@ -23,9 +23,9 @@ TEMPLATES = {
 LEVELS = {
     'quick': [
         {'name': 'L1-N3-M3', 'N': 3, 'M': 3, 'namings': ['id'], 'budget_s': 100},
-        {'name': 'L1b-N3-M3-K2', 'N': 3, 'M': 3, 'K': 2, 'namings': ['id'], 'evented': 1, 'budget_s': 90},
+        {'name': 'L1b-N3-M3-K2', 'N': 3, 'M': 3, 'K': 2, 'namings': ['id'], 'evented': 1, 'budget_s': 130},
         {'name': 'L2-N4-M2', 'N': 4, 'M': 2, 'namings': ['rev'], 'budget_s': 100},
-        {'name': 'L3-TQ-M3', 'templates': ['TQ'], 'M': 3, 'namings': ['id', 'rev'], 'evented': 1, 'budget_s': 90},
+        {'name': 'L3-TQ-M3', 'templates': ['TQ'], 'M': 3, 'namings': ['id', 'rev'], 'evented': 1, 'budget_s': 130},
     ],
     'thorough': [
         {'name': 'L1-N3-M3', 'N': 3, 'M': 3, 'namings': ['id', 'rev'], 'budget_s': 300},
